@@ -332,6 +332,9 @@ func (s *vSess) parse(b []byte, offs int, flags int) string {
 		o, v, e := ParseAllURIHdrs(b, offs, &s.uhl, POptFlags(flags))
 		s.last = o
 		return fmt.Sprintf("%d,%d,%s", o, v, vErrName(e))
+	case "skipq":
+		o, e := SkipQuoted(b, offs)
+		return res(o, e)
 	case "uri":
 		e, p := ParseURI(b, &s.uri)
 		s.last = p
@@ -398,6 +401,8 @@ func (s *vSess) init() {
 		}
 		s.msg.Init(s.buf, h, c)
 	case "hdrline", "headers":
+		s.hdr.Reset()
+		s.hl.Reset()
 		if s.hv != nil {
 			s.hv.Init(s.hv.Contacts.Vals)
 		}
@@ -444,6 +449,8 @@ func (s *vSess) obs() string {
 		return vURIHdrs(&s.uhl)
 	case "uri":
 		return vURI(&s.uri)
+	case "skipq":
+		return "-"
 	}
 	return "?"
 }
@@ -477,6 +484,11 @@ func (s *vSess) step(op []string) (cont bool) {
 	case "O":
 		s.out = append(s.out, s.obs())
 	case "G":
+		// the signature is defined for a message whose parse completed (msg.Buf is only set then)
+		if !(s.msg.Parsed() || s.msg.state == SIPMsgNoCLen) {
+			s.out = append(s.out, "nosig")
+			break
+		}
 		sig, e := GetMsgSig(s.msg)
 		s.out = append(s.out, vMsgSig(&sig)+" err="+vErrName(e))
 	case "A":
